@@ -30,8 +30,8 @@ def run(R):
     for i, (variant, env) in enumerate(CFGS):
         exe = R.cc("overlap_driver", ["overlap_driver.c"], variant)
         out = R.path("ov", "o%d.ndjson" % i)
-        R.run([exe, str(R.seed + i), "full" if (thorough and i == 0) else "quick", out], env=env, ok_codes=(0, 70), timeout=3000)
-        files += R.split_file(out, 3 if not (thorough and i == 0) else 12, "ov%d" % i)
+        R.run([exe, str(R.seed + i), "full" if (thorough and i in (0, 1)) else "quick", out], env=env, ok_codes=(0, 70), timeout=3000)
+        files += R.split_file(out, 3 if not (thorough and i in (0, 1)) else 12, "ov%d" % i)
     total, bad = R.oracle("trace/OracleOverlap.tla", files, timeout=1800)
     seen = set()
     for b in bad:
